@@ -463,7 +463,12 @@ class SimAccessory:
         if t == "/accessories" and req.method == "GET":
             return conn.send_http(200, "OK", json.dumps(self.db, separators=(",", ":")).encode())
         if t.startswith("/characteristics?id=") and req.method == "GET":
-            ids = [tuple(int(x) for x in p.split(".")) for p in t.split("=", 1)[1].split("&")[0].split(",")]
+            try:
+                ids = [tuple(int(x) for x in p.split(".")) for p in t.split("=", 1)[1].split("&")[0].split(",")]
+                assert all(len(i) == 2 for i in ids)
+            except (ValueError, AssertionError):
+                conn.errors.append(("read-url", t))
+                return conn.send_http(400, "Bad Request", b'{"status":-70410}')
             chars = [{"aid": a, "iid": i, "value": self.values.get((a, i))} for a, i in ids]
             return conn.send_http(200, "OK", json.dumps({"characteristics": chars}, separators=(",", ":")).encode())
         if t == "/characteristics" and req.method == "PUT":
